@@ -134,7 +134,12 @@ def h_http(ob):
             s_ok = 200 if env.bool('st_ok_200') else 202
 
             def status_by_error(codes):
-                return s_err if any(c != 0 for c in codes) else s_ok
+                # depends on the WHOLE verdict: length, successes (0 entries) and failures
+                if len(codes) == 0:
+                    return 500
+                if any(c == 0 for c in codes) and any(c != 0 for c in codes):
+                    return 207
+                return s_err if codes[0] != 0 else s_ok
         else:
             status_by_error = None
         # content type
